@@ -204,7 +204,7 @@ impl GraphStore {
                 self.outgoing@ == old(self).outgoing@ && self.incoming@ == old(self).incoming@, old(self).stamped(),
 //@loop 2 iter=it2
             invariant self.nodes@ == n1, self.current_version == old(self).current_version,
-//@before "for label in &constrained_labels {" 2
+//@beforeloop 2
         let ghost n1 = self.nodes@;
         proof {
             let cv = old(self).current_version;
